@@ -222,6 +222,25 @@ class Tracer(SymEval):
                 self.loops.pop()
 
     def _e_for(self, n, env, desc):
+        # for x in it.filter(p) { body } is: for x in it { if p(x) { body } }
+        if desc[0] == "filter" and len(desc) == 3 and isinstance(desc[2], tuple) and desc[2] and desc[2][0] in ("closure", "fn"):
+            names_ = [x["name"].split("#")[0] for x in walk(n["pat"]) if x.get("k") == "bind"]
+            inner = desc[1]
+            try:
+                if inner[0] not in ("range", "map", "zip", "enumerate") and n["pat"].get("k") == "ptuple" and \
+                        all(p.get("k") == "bind" and "sub" not in p for p in n["pat"]["ps"]):
+                    elv = ("tuple", [var(p["name"].split("#")[0]) for p in n["pat"]["ps"]])
+                else:
+                    elv = self.elem_value(inner, names_[0] if names_ else "it")
+                pv = self.apply(desc[2], [elv])
+            except Unsupported:
+                pv = None
+            if isinstance(pv, Poly):
+                self.guards.append((pv, True))
+                try:
+                    return self._e_for(n, env, inner)
+                finally:
+                    self.guards.pop()
         # a loop over a literal array (for (n, &k) in [a, b, c].iter().enumerate()) is the sequence of its bodies: unrolled, with
         # the index a constant, so that `if n == 0 {..} else {..}` selects its branch (constant propagation, as for inlined helpers)
         base, enum = desc, False
@@ -557,7 +576,8 @@ class Tracer(SymEval):
 
     def e_ret(self, n, env):
         v = self.eval(n["e"], env) if "e" in n else ("tuple", [])
-        self.events.append(Event("<return>", [v], self.loops, self.guards, n.get("sp"), n))
+        # a `return` inside an expanded helper leaves the helper, not the function being read
+        self.events.append(Event("<return>" if self.depth == 0 else "<return-inner>", [v], self.loops, self.guards, n.get("sp"), n))
         return ("never",)
 
     def e_break(self, n, env):
